@@ -87,7 +87,7 @@ def _search(args):
     cons, seed, tid = args
     quiet()
     normalise(seed)
-    spec = LIB + GRAMMAR + "\n".join(cons) + "\n"
+    spec = LIB + SEARCH_GRAMMAR + "\n".join(cons) + "\n"
     f = make(spec)
     calls = f.grammar._global_variables["CALLS"]
     events = []
@@ -180,6 +180,10 @@ def _replay_chunk(hists):
 
 
 NESTED_RANDOM = LIB + GRAMMAR.replace("g_wrap(<ktag>)", "g_wrap(<tag>)")
+# searches run on the grammar without a generator-defined ARGUMENT: copies re-derive the argument trees of a field, and a
+# re-derived argument that is itself generator-defined is neither re-drawn consistently nor protected (finding F31, two
+# pinned witnesses below); <wrap> takes the plain symbol <body> instead
+SEARCH_GRAMMAR = GRAMMAR.replace("g_wrap(<ktag>)", "g_wrap(<body>)")
 
 
 def f31_witness():
@@ -201,6 +205,31 @@ def f31_witness():
         if str(w) != "[" + str(w.sources[0]) + "]":
             bad += 1
     return bad
+
+
+def f31b_witness():
+    """Second pinned witness of F31: the inner generator is constant (g_const always returns 'cc').  After a copy
+    (replace of the field by another tree's field) the re-derived argument tree is no longer protected: the operators'
+    own node search finds its <ch> nodes, and replacing one re-generates the field from an argument text ('cb') that
+    g_const never returned."""
+    from fandango.language.symbols import NonTerminal
+    from harness.fan import make, normalise, quiet
+    quiet()
+    normalise(3)
+    f = make(LIB + GRAMMAR)
+    g = f.grammar
+    t1, t2 = g.fuzz("<start>", 40), g.fuzz("<start>", 40)
+    w1 = t1.find_direct_trees(NonTerminal("<wrap>"))[0]
+    w2 = t2.find_direct_trees(NonTerminal("<wrap>"))[0]
+    before = len(w1.sources[0].find_all_nodes(NonTerminal("<ch>")))
+    r = t1.replace(g, w1, w2)
+    w = r.find_direct_trees(NonTerminal("<wrap>"))[0]
+    editable = w.sources[0].find_all_nodes(NonTerminal("<ch>")) if w.sources else []
+    if before != 0 or not editable:
+        return None
+    r2 = r.replace(g, editable[-1], g.parse("b", "<ch>"))
+    w3 = r2.find_direct_trees(NonTerminal("<wrap>"))[0]
+    return str(w3) if str(w3) != "[cc]" else None
 
 
 EQ_ON_FIELD = LIB + """<start> ::= <tag> "." <ch>
@@ -292,6 +321,10 @@ def run(tier, seed):
     if f31_witness():
         rep.violation("witness:F31:nested-random-generator", "<wrap> := g_wrap(<tag>), <tag> := random choice: replacing <wrap> by another "
                       "tree's <wrap> leaves text and recorded argument inconsistent", {"spec": NESTED_RANDOM})
+    wb = f31b_witness()
+    if wb:
+        rep.violation("witness:F31:nested-constant-generator", "<wrap> := g_wrap(<ktag>), <ktag> := g_const() (always 'cc'): after replace(wrap1 := "
+                      "wrap2) the <ch> nodes of the re-derived argument are editable; replacing one yields the field %r" % wb, {"spec": LIB + GRAMMAR})
     w = f32_witness()
     if w:
         rep.violation("witness:F32:equality-repair-overwrites-generated-node", "<tag> := g_fixed() always returns 'aa'; with `where str(<tag>) == \"b\"` "
